@@ -348,7 +348,14 @@ pub trait Gradient2: Gradient1 {
         let indices: Vec<Option<usize>> =
             vars.iter().map(|x| self.vars().get_index_of(x)).collect();
 
-        let default_zero = Dual2::new(0., vars.clone());
+        // a variable which this number does not depend upon has zero first and second derivatives
+        let default_zero = {
+            let unit = Dual2::new(0., vars.clone());
+            Dual2 {
+                dual: Array1::zeros(unit.vars.len()),
+                ..unit
+            }
+        };
         let mut grad: Array1<Dual2> = Array1::zeros(vars.len());
         for (i, i_idx) in indices.iter().enumerate() {
             match i_idx {
